@@ -273,5 +273,12 @@ func (c *conn) roundtrip(ctx context.Context, msg *kmip.RequestMessage) (*kmip.R
 	if err := c.send(ctx, msg); err != nil {
 		return nil, err
 	}
-	return c.recv(ctx)
+	resp, err := c.recv(ctx)
+	if err != nil {
+		// The request has been sent: the connection must not be reused, otherwise
+		// the late response would be handed to the next request.
+		_ = c.terminate(io.ErrClosedPipe)
+		return nil, err
+	}
+	return resp, nil
 }
